@@ -8,6 +8,7 @@ import (
 	"fmt"
 	"math/rand/v2"
 	"os"
+	"strings"
 	"sync"
 	"time"
 
@@ -167,6 +168,9 @@ func main() {
 			pairReal(run, unit, r, dir, ws, ls, forked)
 		}
 	})
+	// (E) several cycles on one real witness that also advances through another entry point
+	run.Floor("chain_cycles", 100)
+	run.Units("chain_real", run.Pick(60, 600), 32, func(unit int64, r *rand.Rand) { chainReal(run, unit, r, dir) })
 	// (C) context end
 	run.Units("cancel", run.Pick(24, 96), 24, func(unit int64, r *rand.Rand) { cancelTest(run, unit, r) })
 }
@@ -427,10 +431,19 @@ func pairStub(run *ev.Run, unit int64, r *rand.Rand, ws int64, ls uint64, forked
 type recorder struct {
 	inner feeder.Witness
 	s     *script
+	// truth reads the real witness directly (nil bytes: nothing stored); stale counts answers of the
+	// adapter that differ from it although nothing else was running.
+	truth func() []byte
+	stale []string
 }
 
 func (w *recorder) GetLatestCheckpoint(ctx context.Context, id string) ([]byte, error) {
 	cp, err := w.inner.GetLatestCheckpoint(ctx, id)
+	if w.truth != nil && (err == nil || errors.Is(err, os.ErrNotExist)) {
+		if want := w.truth(); !bytes.Equal(want, cp) {
+			w.stale = append(w.stale, fmt.Sprintf("adapter reported %d bytes (err=%v), the witness holds %d bytes", len(cp), err, len(want)))
+		}
+	}
 	w.s.mu.Lock()
 	w.s.attempt++
 	e := event{Kind: "get", Attempt: w.s.attempt, Ret: cp, AfterCancel: w.s.cancelled != nil && w.s.cancelled()}
@@ -584,6 +597,96 @@ wait:
 		}
 	}
 	judgeAttempts(run, unit, l, s, evs, what, detail)
+}
+
+// chainReal: one real witness, one adapter (as omniwitness.Main hands the same adapter to every feeder),
+// a growing honest log. Steps alternate between feed cycles through the adapter and updates that reach the
+// witness directly (as the HTTP and bastion endpoints do). Every feed cycle must succeed and leave the
+// witness at the log's size, and what the adapter reports as latest must be what the witness holds.
+func chainReal(run *ev.Run, unit int64, r *rand.Rand, dir string) {
+	u := gen.NewUniverse(r, gen.Opts{NLogs: 1, MaxSize: 64, Branches: 1})
+	l := u.Logs[0]
+	st, err := wit.NewStore(wit.DrawStore(r), dir)
+	if err != nil {
+		run.Inconclusive(err.Error())
+		return
+	}
+	defer st.Close()
+	keys, _ := wit.NewWitKeys(r, []bool{false, true}, true)
+	rn, err := wit.NewRunner(u, keys, st, nil)
+	if err != nil {
+		run.Inconclusive(err.Error())
+		return
+	}
+	adapter := omniwitness.VerifWitnessAdapter(rn.W)
+	truth := func() []byte {
+		cp, err := rn.W.GetCheckpoint(l.ID)
+		if err != nil {
+			return nil
+		}
+		return cp
+	}
+	size := uint64(0)
+	var trace []string
+	steps := 4 + r.IntN(5)
+	for i := 0; i < steps; i++ {
+		next := size + uint64(r.IntN(4))
+		if size == 0 {
+			next = 1 + uint64(r.IntN(4))
+		}
+		if i > 0 && r.IntN(2) == 0 {
+			// another entry point moves the witness
+			if _, err := rn.W.Update(context.Background(), l.ID, size, l.Honest(0, next), l.Branches[0].Consistency(size, next)); err != nil {
+				run.Inconclusive(fmt.Sprintf("direct honest update %d->%d refused: %v", size, next, err))
+				return
+			}
+			trace = append(trace, fmt.Sprintf("direct %d->%d", size, next))
+			size = next
+			continue
+		}
+		s := &script{l: l}
+		if r.IntN(3) == 0 {
+			adapter = omniwitness.VerifWitnessAdapter(rn.W)
+		}
+		w := &recorder{inner: adapter, s: s, truth: truth}
+		var evs []event
+		var mu sync.Mutex
+		ctx, cancel := context.WithTimeout(context.Background(), 3*time.Second)
+		o := opts(l, nil, w, 0, next, &evs, &mu)
+		inner := o.FetchProof
+		o.FetchProof = func(ctx context.Context, from, to log.Checkpoint) ([][]byte, error) {
+			p, err := inner(ctx, from, to)
+			mu.Lock()
+			s.mu.Lock()
+			evs[len(evs)-1].Attempt = s.attempt
+			s.mu.Unlock()
+			mu.Unlock()
+			return p, err
+		}
+		ret, ferr := feeder.FeedOnce(ctx, o)
+		cancel()
+		trace = append(trace, fmt.Sprintf("feed %d->%d: err=%v", size, next, ferr))
+		run.Count("evaluations")
+		run.Count("chain_cycles")
+		run.Distinct("nontrivial", fmt.Sprintf("chain/step%d/after_direct=%v", i, i > 0 && strings.HasPrefix(trace[len(trace)-2], "direct")))
+		detail := map[string]any{"trace": trace, "events": summarize(s.events, evs), "store": st.Kind}
+		if len(w.stale) > 0 {
+			detail["adapter"] = w.stale
+			run.Violate("adapter_latest_is_not_witness_latest", "what the witness adapter reports as the latest checkpoint is not what the witness holds: "+w.stale[0], unit, detail)
+		}
+		if ferr != nil {
+			run.Violate("chain_cycle_failed", fmt.Sprintf("honest log at %d, witness at %d, nothing failing: FeedOnce returned %v", next, size, ferr), unit, detail)
+			return
+		}
+		if got := truth(); !bytes.Equal(got, ret) {
+			run.Violate("result_not_witness_state;chain", "FeedOnce's result is not what the witness now holds", unit, detail)
+		}
+		if v := rn.View(l, rn.Snap()); v.Size != next {
+			run.Violate("witness_not_at_log_checkpoint;chain", fmt.Sprintf("after a successful cycle the witness is at %d, the log at %d", v.Size, next), unit, detail)
+		}
+		judgeAttempts(run, unit, l, s, evs, "chain", detail)
+		size = next
+	}
 }
 
 func cancelTest(run *ev.Run, unit int64, r *rand.Rand) {
